@@ -229,13 +229,6 @@ type tally struct {
 // judge lets TLC decide on the records, cross-checks with the harness's own
 // opinion and the model's expectations, and reports violations.
 func judge(ctx *core.Ctx, recs []*Record, t *tally) error {
-	if dump := os.Getenv("C11_DUMP"); dump != "" { // development aid
-		if _, err := os.Stat(dump); err != nil {
-			if data, err := core.NDJSON(recs); err == nil {
-				os.WriteFile(dump, data, 0o644)
-			}
-		}
-	}
 	o := judgeOpts
 	o.Timeout = ctx.Dur(10, 40)
 	bad, err := core.JudgeCases(ctx, o, recs, ctx.Pick(500, 2000), 14)
@@ -328,6 +321,7 @@ func run(ctx *core.Ctx) error {
 
 	t := &tally{counts: map[string]int{}, outcomes: map[string]int{}}
 	total := 0
+	var fams []family
 	for _, fam := range families {
 		if fam.thorough && !ctx.Thorough() {
 			continue
@@ -335,33 +329,66 @@ func run(ctx *core.Ctx) error {
 		if only := os.Getenv("C11_FAMILIES"); only != "" && !strings.Contains(","+only+",", ","+fam.name+",") {
 			continue // development aid: restrict the run to some families
 		}
-		cases, err := generate(ctx, fam)
-		if err != nil {
-			return err
+		fams = append(fams, fam)
+	}
+	// the design models run ahead of the executions (quick: all at once)
+	type genResult struct {
+		cases []genCase
+		err   error
+	}
+	gens := make([]chan genResult, len(fams))
+	gsem := make(chan struct{}, ctx.Pick(5, 2))
+	for i, fam := range fams {
+		gens[i] = make(chan genResult, 1)
+		go func(ch chan genResult, fam family) {
+			gsem <- struct{}{}
+			cases, err := generate(ctx, fam)
+			<-gsem
+			ch <- genResult{cases, err}
+		}(gens[i], fam)
+	}
+	// TLC judges one chunk of records while the next chunk is executed
+	var pending chan error
+	wait := func() error {
+		if pending == nil {
+			return nil
+		}
+		err := <-pending
+		pending = nil
+		return err
+	}
+	for fi, fam := range fams {
+		res := <-gens[fi]
+		if res.err != nil {
+			return res.err
 		}
 		var jobs []Job
-		for i, gc := range cases {
+		for i, gc := range res.cases {
 			jobs = append(jobs, jobsFor(ctx, fam, i, gc)...)
 		}
-		var recs []*Record
 		for lo := 0; lo < len(jobs); lo += 40000 { // bounded memory in the thorough tier
 			hi := min(lo+40000, len(jobs))
-			recs, err = executeAll(jobs[lo:hi])
+			recs, err := executeAll(jobs[lo:hi])
 			if err != nil {
 				return err
 			}
 			ctx.Logf("family %s: %d executions on the real copier done", fam.name, hi)
-			if err := judge(ctx, recs, t); err != nil {
+			if err := wait(); err != nil {
 				return err
 			}
+			if lo == 0 && len(recs) > 0 {
+				r := recs[len(recs)/2]
+				ctx.Ev.Sample(map[string]any{"kind": "generated case executed on pdf.Copier and judged by Trace_Copier", "family": fam.name,
+					"source": Graph(r.job.graph()).String(), "calls": fmt.Sprint(r.job.Calls), "src": r.job.Src, "dst": r.job.Dst, "outcome": r.Outcome, "events": r.Events})
+			}
+			pending = make(chan error, 1)
+			go func(ch chan error, recs []*Record) { ch <- judge(ctx, recs, t) }(pending, recs)
 		}
 		ctx.Ev.AddReplayed(len(jobs))
 		total += len(jobs)
-		if len(recs) > 0 {
-			r := recs[len(recs)/2]
-			ctx.Ev.Sample(map[string]any{"kind": "generated case executed on pdf.Copier and judged by Trace_Copier", "family": fam.name,
-				"source": Graph(r.job.graph()).String(), "calls": fmt.Sprint(r.job.Calls), "src": r.job.Src, "dst": r.job.Dst, "outcome": r.Outcome, "events": r.Events})
-		}
+	}
+	if err := wait(); err != nil {
+		return err
 	}
 
 	// seeded larger graphs
